@@ -285,7 +285,7 @@ def run(ctx):
     nhist = ctx.pick(16, 350)
     adapters = list(ADAPTER_MODES)
     for hno in range(nhist):
-        random_history(rec, rng, adapters[hno % len(adapters)], rng.randint(25, 70))
+        random_history(rec, rng, adapters[hno % len(adapters)], rng.randint(*ctx.pick((20, 55), (25, 70))))
     rec.close()
     events = rec.events
     # chunks start at session boundaries
